@@ -186,6 +186,9 @@ def check_run(ctx, rec, history, baseline=None, region_only=False, expect_ok=Non
     ctx.dist('stage', job['stage'])
     ctx.dist('history', history)
     ctx.dist('returned', 'ok' if res['ok'] else 'error')
+    ctx.dist('operations-by-descendants-after-return', 'some' if rec['late'] else 'none')
+    if res.get('all_descendants_exited') is False:
+        ctx.dist('descendants', 'still-alive-after-30s')
     kinds = {}
     for o in rec['ops']:
         kinds[o['k']] = kinds.get(o['k'], 0) + 1
